@@ -717,6 +717,9 @@ class HTMLConverter(PDFConverter[AnyIO]):
 
 class XMLConverter(PDFConverter[AnyIO]):
     CONTROL = re.compile("[\x00-\x08\x0b-\x0c\x0e-\x1f]")
+    # half of a surrogate pair: not a character, cannot be encoded or written
+    # as a character reference
+    SURROGATE = re.compile("[\ud800-\udfff]")
 
     def __init__(
         self,
@@ -764,6 +767,7 @@ class XMLConverter(PDFConverter[AnyIO]):
     def write_text(self, text: str) -> None:
         if self.stripcontrol:
             text = self.CONTROL.sub("", text)
+        text = self.SURROGATE.sub("", text)
         self.write(enc(text))
 
     def receive_layout(self, ltpage: LTPage) -> None:
